@@ -122,26 +122,78 @@ def call(ctx, name, args, world=None, models=None, kwargs=None):
 # ------------------------------------------------------------------------------------------------------------
 # numpy on Python floats: IEEE semantics (a domain error is nan, an overflow inf) - trusted model of the library
 # ------------------------------------------------------------------------------------------------------------
+def np_err(interp):
+    return interp.world.__dict__.setdefault('np_err', {'divide': 'warn', 'over': 'warn', 'under': 'ignore', 'invalid': 'warn'})
+
+
 def numpy_models():
     import math
 
-    def unary(fn, domain_nan=True):
-        def f(x, *rest, **kw):
+    def fault(interp, kind):
+        """numpy's floating point error handling (np.errstate / np.seterr): a process-wide setting per kind of fault; 'raise' turns the
+        fault into FloatingPointError, everything else lets the IEEE result through."""
+        if np_err(interp).get(kind) == 'raise':
+            raise ExcRaised(Ref('builtin:FloatingPointError'))
+
+    def unary(fn, domain_nan=True, name=''):
+        def f(interp, x, *rest, **kw):
             if rest or kw or isinstance(x, bool) or not isinstance(x, (int, float)):
                 raise Unmodelled('numpy function on a non-float argument')
             try:
-                return float(fn(x))
+                res = float(fn(x))
             except ValueError:
-                return float('nan')
+                res = float('-inf') if name in ('log', 'log10') and x == 0 else float('nan')
             except OverflowError:
-                return float('inf')
+                res = float('inf')
+            if res != res and x == x:
+                fault(interp, 'invalid')
+            elif res in (float('inf'), float('-inf')) and x not in (float('inf'), float('-inf')):
+                fault(interp, 'divide' if name in ('log', 'log10', 'arctanh') else 'over')
+            elif name in ('exp', 'sinh', 'tanh', 'arcsinh', 'arctan', 'sin', 'tan', 'radians', 'degrees') and x != 0 and abs(res) < 2.2250738585072014e-308 \
+                    and (name == 'exp' or abs(x) < 2.2250738585072014e-308):
+                fault(interp, 'under')
+            return res
+        f.wants_interp = True
         return f
     table = {'cos': math.cos, 'sin': math.sin, 'tan': math.tan, 'arccos': math.acos, 'arcsin': math.asin, 'arctan': math.atan,
              'cosh': math.cosh, 'sinh': math.sinh, 'tanh': math.tanh, 'arccosh': math.acosh, 'arcsinh': math.asinh, 'arctanh': math.atanh,
              'degrees': math.degrees, 'radians': math.radians, 'exp': math.exp, 'sqrt': math.sqrt, 'log': math.log, 'log10': math.log10,
              'floor': math.floor, 'ceil': math.ceil, 'trunc': math.trunc, 'fabs': math.fabs,
              'sign': lambda x: (x > 0) - (x < 0)}
-    out = {f'ext:numpy.{k}': unary(v) for k, v in table.items()}
+    out = {f'ext:numpy.{k}': unary(v, name=k) for k, v in table.items()}
+
+    class ErrState(PyModel):
+        def __init__(self, interp, kw):
+            self.interp, self.kw, self.saved = interp, kw, None
+
+        def __enter__(self):
+            self.saved = seterr(self.interp, **self.kw)
+            return self
+
+        def __exit__(self, *exc):
+            np_err(self.interp).update(self.saved)
+            return False
+
+    def seterr(interp, all=None, divide=None, over=None, under=None, invalid=None):
+        cur = np_err(interp)
+        old = dict(cur)
+        for kind, val in (('divide', divide), ('over', over), ('under', under), ('invalid', invalid)):
+            val = val if val is not None else all
+            if val is not None:
+                if val not in ('ignore', 'warn', 'raise', 'call', 'print', 'log'):
+                    raise ExcRaised(Ref('builtin:ValueError'))
+                cur[kind] = val
+        return old
+    seterr.wants_interp = True
+
+    def errstate(interp, **kw):
+        return ErrState(interp, kw)
+    errstate.wants_interp = True
+
+    def geterr(interp):
+        return dict(np_err(interp))
+    geterr.wants_interp = True
+    out.update({'ext:numpy.seterr': seterr, 'ext:numpy.errstate': errstate, 'ext:numpy.geterr': geterr})
 
     def arctan2(a, b):
         if any(isinstance(v, bool) or not isinstance(v, (int, float)) for v in (a, b)):
